@@ -31,6 +31,7 @@ RULE = ('Each shard draws scenarios (extinction law, n filters with pairwise dif
         'distance-dependent mode. One evaluation = one (scenario, slice) with 4-6 fits per flag vector; '
         'vector_evaluations counts (vector, scenario) pairs. Non-trivial = the slice contains a non-singular vector (>=2 fitted '
         'points in 2-D, >=1 in 3-D) that also contains one of {0,9,2,3,4}; distinct = distinct canonical JSON.')
+RULE += (' ' + 'Also varied: a ~1 mJy flag-1 point whose flag-4 twin carries exactly 0.0; fitters built without the bands flagged 0 (also with remove_resolved=True).')
 ASSUMPTIONS = [
     'singular vectors (<2 fitted points in 2-D / none in 3-D) are enumerated but only n_data is asserted on them',
     'paired runs are compared per model name with 1e-9 relative tolerance (+1e-13*cond on parameters): a legal '
